@@ -12,7 +12,7 @@
      Artifact(name), panicking nodes -> ArtifactP f bad / RArt vs or RPanic (the call panicked and the client
                                                                     recovered, as the edit server does)
    a panic / unparsable output is RFail (never a sequential response). *)
-From PF Require Export Graph.Lock Check.Common.
+From PF Require Export Graph.Lock Graph.LockExt Check.Common.
 From Coq Require Import List NArith Arith Bool.
 Import ListNotations.
 
@@ -44,7 +44,10 @@ Inductive case :=
                                             artifact of a FRESH instance given the same parameter values) *)
 (* single-threaded script: [calls] in program order *)
 | CSeq (init : list N) (ver : N) (calls : list call) (final : list N) (ver_after : N) (late : list (resp * resp))
-       (fresh : list (resp * resp)).
+       (fresh : list (resp * resp))
+(* sequential script of ONE client written compactly (Graph/LockExt.v [seg]: [SU p vs] = one successful update of
+   p per value, [SC o r] = any other call and its response); used for long bursts of updates between two reads *)
+| CSweep (init : list N) (ver : N) (segs : list seg) (final : list N) (ver_after : N) (fresh : list (resp * resp)).
 
 Definition is_update (o : op) : bool := match o with Update _ _ | BadUpdate _ => true | _ => false end.
 Definition count_if (f : call -> bool) (l : list call) : N := N.of_nat (List.length (filter f l)).
@@ -67,12 +70,7 @@ Definition vread_ok (ver : N) (calls : list call) (r : nat * nat * N) : bool :=
       (lo <=? v)%N && (v <=? hi)%N
   end.
 
-(* sequential replay in the given order (the model's step function) *)
-Fixpoint legalb (s : state) (l : list call) : bool :=
-  match l with
-  | [] => true
-  | x :: r => resp_eqb (snd (seq_step s (c_op x))) (c_resp x) && legalb (fst (seq_step s (c_op x))) r
-  end.
+(* sequential replay in the given order: [legalb] of Graph/LockExt.v *)
 
 (* responses are VALUES: in the model a response is a Coq value fixed at the call's linearization point
    (LockSemProofs.responses_are_values); the implementation must return objects that keep showing that value *)
@@ -95,6 +93,11 @@ Definition prop_ok (c : case) : bool :=
       stamps_ok calls && linb (state_of init ver) calls
       && N.eqb ver_after (ver + count_if (fun x => is_update (c_op x)) calls)
       && values_ok late && values_ok fresh
+  | CSweep init ver segs _ ver_after fresh =>
+      (* one client: the only order compatible with real time is the program order (LockExtProofs.sweep_oracle_iff) *)
+      legalb (state_of init ver) (expand segs)
+      && N.eqb ver_after (ver + count_if (fun x => is_update (c_op x)) (expand segs))
+      && values_ok fresh
   end.
 
 (* model vs implementation: the model predicts the responses AND the state the window leaves behind *)
@@ -105,4 +108,7 @@ Definition corr_ok (c : case) : bool :=
   | CSeq init ver calls final ver_after _ _ =>
       legalb (state_of init ver) (calls ++ final_reads calls final)
       && N.eqb ver_after (st_ver (run_calls (state_of init ver) calls))
+  | CSweep init ver segs final ver_after _ =>
+      legalb (state_of init ver) (expand segs ++ final_reads (expand segs) final)
+      && N.eqb ver_after (st_ver (run_calls (state_of init ver) (expand segs)))
   end.
